@@ -16,3 +16,10 @@ open SophiaProofs.C17
 #print axioms rel_inverse_partial
 #print axioms rel_is_ref_partial
 #print axioms rel_parents_partial
+#print axioms rel_boundaries_utf8_refuted
+#print axioms rel_boundaries_utf8_partial
+#print axioms rel_same_doc_some
+#print axioms rel_none_only_outside
+#print axioms rel_some_inside
+#print axioms rel_same_doc_inverse_partial
+#print axioms rel_path_input_partial
